@@ -3,6 +3,7 @@ package prop
 
 import (
 	"verif/internal/core"
+	"verif/prop/c05"
 	"verif/prop/c06"
 	"verif/prop/c12"
 	"verif/prop/c16"
@@ -18,6 +19,7 @@ type Prop struct {
 
 // All maps property id to its check.
 var All = map[string]Prop{
+	"C05": {Level: "model_checking", Check: c05.Check, Replay: c05.Replay},
 	"C06": {Level: "model_checking", Check: c06.Check, Replay: c06.Replay},
 	"C12": {Level: "model_checking", Check: c12.Check, Replay: c12.Replay},
 	"C16": {Level: "model_checking", Check: c16.Check, Replay: c16.Replay},
